@@ -94,13 +94,70 @@ def units():
     U.fn("x_parseXML", solver=CADICAL, flags=GUARD, pre_call=docbuf, arrays={"s": 1}, ptr_requires=False, requires=BUFOK + ["__CPROVER_r_ok($0, sizeof(*$0))", "$1 == g_buf"], assigns=["*$0"],
          loops={1: dict(assigns=["s", "*doc", "__verif_exc"], invariant=[LV("s"), "__verif_exc == 0"], decreases=DIST("s"))},
          ensures={"parseXML_returns_a_document_or_throws_runtime_error": "__verif_exc == 0 || __verif_exc == %s" % EXC})
-    return [U]
+    return [U, values_unit()]
+
+
+def values_unit():
+    """Leaf-level FIDELITY of the reader, BOUNDED exact: the strings produced by makeString / parseString / parseIdentifier / parseProp are
+    exactly the bytes of the text they were scanned from (text of at most 8 bytes; bounded std::string code model)."""
+    TB = 8
+    helpers = """
+char the_text[%(n)d];     /* the NUL-terminated text (harness) */
+static _Bool is_slice(std_basic_string_char *s, const char *from, unsigned long n) { unsigned long i; if (s->n != n) return 0; for (i = 0; i < n && i < %(n)d; i++) if (s->b[i] != from[i]) return 0; return 1; }
+static int sp_white(char c) { return c == ' ' || c == '\\t' || c == '\\n' || c == '\\r'; }
+static int sp_alpha(char c) { return (c >= 'a' && c <= 'z') || (c >= 'A' && c <= 'Z'); }
+static int sp_digit(char c) { return c >= '0' && c <= '9'; }
+/* end of a quoted string that starts (after the quote) at position p: the first unescaped closing quote, or the terminator */
+static unsigned long sp_string_end(unsigned long p, char q) { unsigned long k; for (k = 0; k < %(n)d; k++) { if (p >= %(n)d - 1 || the_text[p] == q || the_text[p] == 0) return p; if (the_text[p] == '\\\\' && the_text[p + 1] != 0) p++; p++; } return p; }
+/* end of an identifier that starts at p (first character already known to be a letter or '_') */
+static unsigned long sp_ident_end(unsigned long p) { unsigned long k; p++; for (k = 0; k < %(n)d; k++) { if (p >= %(n)d - 1) return p; char c = the_text[p]; if (!(sp_alpha(c) || sp_digit(c) || c == '_' || c == '.')) return p; p++; } return p; }
+static unsigned long sp_skip_white(unsigned long p) { unsigned long k; for (k = 0; k < %(n)d; k++) { if (p >= %(n)d - 1 || !sp_white(the_text[p])) return p; p++; } return p; }
+""" % dict(n=TB + 1)
+    V = Unit("c16_values", "units/c16_values.cpp", helpers=helpers, opts=dict(tracked_vec=True, tracked_str=True, bounded_str=TB + 1, memcpy_code=True))
+    text = ("  unsigned long in_len = nondet_ulong(); __CPROVER_assume(in_len <= %d);\n" % TB
+            + "".join("  char in_t%d = nondet_char(); __CPROVER_assume(in_t%d != 0); the_text[%d] = in_t%d;\n" % (k, k, k, k) for k in range(TB))
+            + "  the_text[%d] = 0;\n" % TB + "".join("  if (in_len == %d) the_text[%d] = 0;\n" % (k, k) for k in range(TB)))
+    TEXTOK = ["the_text[%d] == 0" % TB]
+    OFF = lambda p: "((unsigned long)((%s) - the_text))" % p
+    acc = dict(unwind=TB + 4, timeout=900, solver=CADICAL)
+    two = text + "  unsigned long in_b = nondet_ulong(), in_e = nondet_ulong(); __CPROVER_assume(in_b <= in_e && in_e <= in_len); p_begin = the_text + in_b; p_end = the_text + in_e;\n"
+    V.fn("x_makeString", pre_call=two, arrays={"begin": 1, "end": 1}, ptr_requires=False, requires=TEXTOK + ["__CPROVER_same_object($0, the_text) && __CPROVER_same_object($1, the_text) && %s <= %s && %s <= %d" % (OFF("$0"), OFF("$1"), OFF("$1"), TB),
+                                                                                                      "__verif_exc == 0"] + ["IMP(%d >= %s && %d < %s, the_text[%d] != 0)" % (k, OFF("$0"), k, OFF("$1"), k) for k in range(TB)],
+         assigns=["__verif_exc"], ensures={"makeString_is_exactly_the_bytes_from_begin_to_end": "__verif_exc == 0 && is_slice(&RET, $0, %s - %s)" % (OFF("$1"), OFF("$0"))}, **acc)
+    cur = text + "  unsigned long in_pos = nondet_ulong(); __CPROVER_assume(in_pos <= in_len); o_@0 = the_text + in_pos;\n"
+    CUROK = ["__CPROVER_same_object(*$0, the_text) && %s <= %d" % (OFF("*$0"), TB), "__verif_exc == 0"]
+    P0 = OFF("__CPROVER_old(*$0)")
+    strpre = cur + "  __CPROVER_assume(*o_@0 == '\"' || *o_@0 == '\\'');\n  o_@1.n = nondet_ulong(); __CPROVER_assume(o_@1.n <= %d);\n" % TB
+    SE = "sp_string_end(%s + 1, the_text[%s])" % (P0, P0)
+    V.fn("x_parseString", pre_call=strpre, requires=TEXTOK + CUROK + ["**$0 == '\"' || **$0 == '\\''", "$1->n <= %d" % TB], assigns=["*$0", "*$1", "__verif_exc"], inline=["x_makeString", "x_consume", "x_expect"], noalias=True, ensures={
+        "an_unterminated_string_throws": "(__verif_exc != 0) == (the_text[%s] == 0)" % SE,
+        "the_value_is_exactly_the_bytes_between_the_quotes": "IMP(__verif_exc == 0, is_slice($1, the_text + %s + 1, %s - %s - 1))" % (P0, SE, P0),
+        "the_cursor_ends_after_the_closing_quote": "IMP(__verif_exc == 0, %s == %s + 1)" % (OFF("*$0"), SE)}, **acc)
+    idpre = cur + "  o_@1.n = nondet_ulong(); __CPROVER_assume(o_@1.n <= %d);\n" % TB
+    ISID = "(sp_alpha(the_text[%s]) || the_text[%s] == '_')" % (P0, P0)
+    V.fn("x_parseIdentifier", pre_call=idpre, requires=TEXTOK + CUROK + ["$1->n <= %d" % TB], assigns=["*$0", "*$1", "__verif_exc"], inline=["x_makeString"], noalias=True, ensures={
+        "an_identifier_is_recognised_exactly_at_a_letter_or_underscore": "__verif_exc == 0 && RET == %s" % ISID,
+        "the_identifier_is_exactly_the_scanned_bytes_and_the_cursor_follows_it": "IMP(RET, is_slice($1, the_text + %s, sp_ident_end(%s) - %s) && %s == sp_ident_end(%s))" % (P0, P0, P0, OFF("*$0"), P0),
+        "no_identifier_leaves_the_cursor_alone": "IMP(!RET, *$0 == __CPROVER_old(*$0))"}, **acc)
+    proppre = cur + "  o_@1.n = nondet_ulong(); __CPROVER_assume(o_@1.n <= %d); o_@2.n = nondet_ulong(); __CPROVER_assume(o_@2.n <= %d);\n" % (TB, TB)
+    IE = "sp_ident_end(%s)" % P0
+    EQP = "sp_skip_white(%s)" % IE
+    QP = "sp_skip_white(%s + 1)" % EQP
+    VE = "sp_string_end(%s + 1, the_text[%s])" % (QP, QP)
+    WELL = "(%s && the_text[%s] == '=' && (the_text[%s] == '\"' || the_text[%s] == '\\'') && the_text[%s] != 0)" % (ISID, EQP, QP, QP, VE)
+    V.fn("x_parseProp", pre_call=proppre, requires=TEXTOK + CUROK + ["$1->n <= %d && $2->n <= %d" % (TB, TB)], assigns=["*$0", "*$1", "*$2", "__verif_exc"],
+         inline=["x_makeString", "x_consume", "x_expect", "x_expect2", "x_skipWhites", "x_isWhite", "x_parseIdentifier", "x_parseString"], noalias=True, ensures={
+        "a_well_formed_property_yields_exactly_its_name_and_value": "IMP(%s, __verif_exc == 0 && RET && is_slice($1, the_text + %s, %s - %s) && is_slice($2, the_text + %s + 1, %s - %s - 1) && %s == %s + 1)" % (WELL, P0, IE, P0, QP, VE, QP, OFF("*$0"), VE),
+        "no_identifier_means_no_property": "IMP(!%s, __verif_exc == 0 && !RET && *$0 == __CPROVER_old(*$0))" % ISID,
+        "a_malformed_property_throws": "IMP(%s && !%s, __verif_exc != 0)" % (ISID, WELL)}, **acc)
+    return V
 
 
 META = dict(
     level="proof",
     level_text="Every scanner/parser function of XML.cpp (isWhite, expect x2, consume x2, consumeComment, makeString, parseString, parseIdentifier, skipWhites, parseProp, skipComment, the recursive parseNode, parseHeader, parseXML) is extracted from /repo and proved, for NUL-terminated buffers of ANY length up to 2^47 bytes (the x86-64 user address space; the only bound, a harness assumption) with arbitrary contents and any cursor position, to keep the cursor inside [buffer, terminator], to dereference only bytes of the buffer (CBMC pointer checks on every *s, s[1], s[2], end[-1]), to terminate in every loop (loop contracts with decreases clauses; parseNode with its own contract assumed at the recursive call) and to leave either normally or with std::runtime_error in flight.",
-    level_note="std::string / std::map / std::vector<Node> / string streams are OPAQUE in this unit (values not modelled): the 'faithful tree' half of the statement (names, properties, contents, order) is NOT verified. isalpha/isdigit/isspace as in the C locale. readXML's file handling (fopen/ftell/fread) is assumed to hand parseXML a buffer of numBytes+1 bytes whose last byte is 0. Recursion depth (stack) is not bounded by the proof.",
+    level_note="LEAF-LEVEL fidelity is checked by BOUNDED exact contracts (unit c16_values: texts of at most 8 bytes, bounded std::string code model, memcpy as a byte loop): makeString is exactly the bytes [begin,end), parseString yields exactly the bytes between the quotes (escapes skipped as the scanner defines) and throws exactly for an unterminated string, parseIdentifier yields exactly the scanned identifier, parseProp yields exactly name and value of a well-formed name=\"value\" and throws for a malformed one. Above the leaves std::string / std::map / std::vector<Node> / string streams are OPAQUE (values not modelled): how parseNode ASSEMBLES the tree (property map, child order, trimmed content) is NOT verified. isalpha/isdigit/isspace as in the C locale. readXML's file handling (fopen/ftell/fread) is assumed to hand parseXML a buffer of numBytes+1 bytes whose last byte is 0. Recursion depth (stack) is not bounded by the proof.",
     assumptions=["text buffer at most 2^47 bytes", "opaque std containers/strings", "C-locale <cctype>", "readXML passes a NUL-terminated buffer (fread <= numBytes, ftell >= 0)", "allocation never fails"],
-    unverified=["faithful tree (string contents, properties, child order)", "recursion depth / stack", "Writer", "fopen/ftell/fread behaviour"],
+    bounded=["leaf fidelity (unit c16_values: makeString, parseString, parseIdentifier, parseProp): texts of at most 8 bytes, unwind 12"],
+    unverified=["tree assembly in parseNode/parseXML (property map, child order, trimmed content)", "recursion depth / stack", "Writer", "fopen/ftell/fread behaviour"],
 )
